@@ -296,16 +296,6 @@ def _c16_common_head(rec):
 
 
 # ----------------------------------------------------------------------------------------- C20
-@classifier("ignore-comment-not-honoured-by-direct-edits")
-def _c20_direct(rec):
-    """Rules that edit the text through the direct back-end (processing.alter_code / remove_nodes / _insert_nodes / _replace_nodes:
-    move_before_loop, the duplicate-import and sort-import rules, missing_context_manager, swap_if_else's implicit form,
-    remove_duplicate_functions, ...) never consult has_ignore_comment for the lines they delete or move: the code of an annotated
-    line is removed or moved and the bare comment stays behind."""
-    d = rec.get("detail") or {}
-    return rec.get("kind") == "ignored_line_not_carried_over" and d.get("direct_edit_backend") is True and not d.get("scheduled_backend")
-
-
 # ----------------------------------------------------------------------------------------- C01 / C02 / C19 (behavioural steps)
 _BEHAVIOUR_KINDS = ("step_changes_behaviour", "program_behaves_differently", "folded_program_behaves_differently", "deleted_code_was_observable",
                     "binding_structure_changed", "surface_name_lost", "client_behaves_differently", "preserved_name_lost")
@@ -667,3 +657,131 @@ def _c07_underscore(rec):
     delete_pointless_statements takes no preserve set."""
     d = rec.get("detail") or {}
     return rec.get("kind") == "surface_name_lost" and d.get("name") == "_"
+
+
+# ----------------------------------------------------------------------------------------- C19
+def _binding_kinds(tree):
+    kinds = {}
+    def add(name, kind):
+        kinds.setdefault(name, set()).add(kind)
+    for n in ast.walk(tree):
+        if isinstance(n, (ast.FunctionDef, ast.AsyncFunctionDef)):
+            add(n.name, "def")
+            for a in n.args.posonlyargs + n.args.args + n.args.kwonlyargs + [x for x in (n.args.vararg, n.args.kwarg) if x]:
+                add(a.arg, "arg")
+        elif isinstance(n, ast.Lambda):
+            for a in n.args.posonlyargs + n.args.args + n.args.kwonlyargs:
+                add(a.arg, "arg")
+        elif isinstance(n, ast.ClassDef):
+            add(n.name, "class")
+        elif isinstance(n, (ast.Import, ast.ImportFrom)):
+            for a in n.names:
+                add(a.asname or a.name.split(".")[0], "import")
+        elif isinstance(n, ast.ExceptHandler) and n.name:
+            add(n.name, "except")
+        elif isinstance(n, (ast.For, ast.AsyncFor, ast.comprehension)):
+            for t in ast.walk(n.target):
+                if isinstance(t, ast.Name):
+                    add(t.id, "loop")
+        elif isinstance(n, ast.withitem) and n.optional_vars is not None:
+            for t in ast.walk(n.optional_vars):
+                if isinstance(t, ast.Name):
+                    add(t.id, "with")
+        elif isinstance(n, (ast.Assign, ast.AnnAssign, ast.AugAssign, ast.NamedExpr)):
+            targets = n.targets if isinstance(n, ast.Assign) else [n.target]
+            for tg in targets:
+                for t in ast.walk(tg):
+                    if isinstance(t, ast.Name) and isinstance(t.ctx, ast.Store):
+                        add(t.id, "assign")
+        elif isinstance(n, ast.Attribute):
+            add(n.attr, "attribute")
+        elif isinstance(n, ast.keyword) and n.arg:
+            add(n.arg, "keyword")
+    return kinds
+
+
+def _identifiers(text):
+    return set(re.findall(r"[A-Za-z_]\w*", text or ""))
+
+
+@classifier("renaming-merges-distinct-names")
+def _c19_merge(rec):
+    """align_variable_names_with_convention computes the new spelling of every binding separately: `fooBar_` and `foo_bar` (or `myVar`, `MyVar`, `my_var`) are both
+    renamed to the same name and two bindings become one; the blacklist only covers names that exist *before* the renaming."""
+    b = _behaviour(rec, {"fixes.align_variable_names_with_convention", "fixes._fix_variable_names", "main.format_code"})
+    if not b:
+        return False
+    probs = (rec.get("detail") or {}).get("structural_problems") or []
+    merged = [p for p in probs if p.get("problem") == "two_bindings_merged_into_one_name"]
+    if merged:
+        # the known mechanism: two names that are *both* renamed end up equal. A renamed name landing on an existing, unrenamed one is what the blacklist prevents.
+        return all(p.get("new") not in (p.get("old") or []) for p in merged) and not any(p.get("problem") == "new_name_is_keyword_or_builtin" for p in probs)
+    # not a pure renaming any more: fall back to the texts: two different identifiers that disappear, fewer that appear
+    gone = _identifiers(b[1]) - _identifiers(b[2])
+    new = _identifiers(b[2]) - _identifiers(b[1])
+    norm = lambda s: s.replace("_", "").lower()  # noqa: E731
+    groups = {}
+    for g in gone:
+        groups.setdefault(norm(g), set()).add(g)
+    return any(len(v) >= 2 for v in groups.values()) and len(new) < len(gone)
+
+
+@classifier("renamed-name-is-bound-in-several-ways")
+def _c19_multi_binding(rec):
+    """The naming rules treat a name as one kind of binding (a def, an assignment, ...). When the same name is also bound another way in the module (rebound by an
+    assignment, an import alias, an except target, a keyword argument, an attribute of the same spelling), only some occurrences are renamed or redirected."""
+    b = _behaviour(rec, {"fixes.align_variable_names_with_convention", "fixes._fix_variable_names", "fixes.remove_duplicate_functions", "main.format_code",
+                         "fixes.undefine_unused_variables"})
+    if not b:
+        return False
+    kinds = _binding_kinds(b[3])
+    gone = _identifiers(b[1]) - _identifiers(b[2])
+    count = lambda text, n: len(re.findall(r"(?<![A-Za-z0-9_])" + re.escape(n) + r"(?![A-Za-z0-9_])", text or ""))  # noqa: E731
+    touched = gone | {n for n in kinds if count(b[1], n) != count(b[2], n)}
+    def several(ks):
+        ks = set(ks)
+        if ks & {"def", "class"} and len(ks - {"attribute"}) >= 2:
+            return True  # a definition that is also rebound some other way
+        if ks & {"import", "except"} and len(ks) >= 2:
+            return True  # an import alias / except target spelled like another binding
+        if "keyword" in ks and ks & {"assign", "def", "arg", "loop"}:
+            return True  # a keyword argument spelled like a renamed variable
+        return False
+
+    return any(several(kinds.get(n, ())) for n in touched)
+
+
+@classifier("global-declaration-not-renamed")
+def _c19_global(rec):
+    """A module variable that a function declares `global` (or a local that an inner function declares `nonlocal`) is renamed at module level, but the declaration and
+    the uses inside that function keep the old name (or are renamed by another convention)."""
+    b = _behaviour(rec, {"fixes.align_variable_names_with_convention", "fixes._fix_variable_names", "main.format_code", "fixes.undefine_unused_variables"})
+    if not b:
+        return False
+    declared = {n for g in ast.walk(b[3]) if isinstance(g, (ast.Global, ast.Nonlocal)) for n in g.names}
+    count = lambda text, n: len(re.findall(r"(?<![A-Za-z0-9_])" + re.escape(n) + r"(?![A-Za-z0-9_])", text or ""))  # noqa: E731
+    if any(count(b[1], n) != count(b[2], n) for n in declared):
+        return True
+    # ... or a declaration whose function no longer mentions the declared name at all (its uses were renamed)
+    for fn in ast.walk(b[4]):
+        if isinstance(fn, (ast.FunctionDef, ast.AsyncFunctionDef)):
+            for st in ast.walk(fn):
+                if isinstance(st, (ast.Global, ast.Nonlocal)):
+                    for n in st.names:
+                        if not any(isinstance(x, ast.Name) and x.id == n for x in ast.walk(fn)):
+                            return True
+    return False
+
+
+@classifier("duplicate-function-kept-under-a-builtin-name")
+def _c19_dup_builtin(rec):
+    """remove_duplicate_functions deletes the later of two equal functions and redirects its uses to the first; when the first is named like a builtin or keyword
+    (`def list(x)`, `def case(y)`) the uses are not redirected and the deleted name is left dangling (NameError)."""
+    import builtins as _b
+    import keyword as _k
+
+    b = _behaviour(rec, {"fixes.remove_duplicate_functions"})
+    if not b:
+        return False
+    reserved = set(dir(_b)) | set(_k.kwlist) | set(getattr(_k, "softkwlist", [])) | {"match", "case", "type"}
+    return any(isinstance(n, ast.FunctionDef) and n.name in reserved for n in ast.walk(b[3]))
